@@ -753,6 +753,59 @@ def fam_compare(res, s, v, spec, what):
     if t is None:
         res.und(R3, 'body is not a Boolean expression / if-return chain')
         return
+    # one comparison of packed keys `(u64(u32(a.x)) << 32) | u32(a.y)`: the lexicographic order of the components *as converted
+    # to uint32*; that is the order of the components only where the conversion is monotone (unsigned elements of <= 32 bits)
+    U32 = ('uint32_t', 'unsigned int', 'std::uint32_t')
+    U64 = ('uint64_t', 'unsigned long', 'unsigned long long', 'std::uint64_t', 'size_t')
+
+    def key_of(x):
+        while x[0] == 'ctor' and x[1] in U64 and len(x[2]) == 1:
+            x = x[2][0]
+        if not (x[0] == 'b' and x[1] in ('|', '+')):
+            return None
+        for hi, lo in ((x[2], x[3]), (x[3], x[2])):
+            if hi[0] == 'b' and hi[1] == '<<' and hi[3] == ('lit', __import__('fractions').Fraction(32)):
+                h = hi[2]
+                wide = False
+                while h[0] == 'ctor' and h[1] in U64 and len(h[2]) == 1:
+                    h, wide = h[2][0], True
+                if wide and h[0] == 'ctor' and h[1] in U32 and len(h[2]) == 1 and lo[0] == 'ctor' and lo[1] in U32 and len(lo[2]) == 1:
+                    ch, cl = h[2][0], lo[2][0]
+                    if ch[0] == 'm' and cl[0] == 'm' and ch[1] == cl[1] and ch[1][0] == 'p':
+                        return ch[1], ch[2], cl[2]
+        return None
+    packed = []
+
+    def unpack(x):
+        if x[0] == 'b' and x[1] in ('<', '>', '<=', '>=', '==', '!='):
+            ka, kb = key_of(x[2]), key_of(x[3])
+            if ka is not None and kb is not None and ka[1:] == kb[1:] and ka[0] != kb[0]:
+                packed.append(show(x, s.names))
+                A_, B_, hi, lo = ka[0], kb[0], ka[1], ka[2]
+                eq = ('b', '==', ('m', A_, hi), ('m', B_, hi))
+                if x[1] in ('==', '!='):
+                    e = ('b', '&&', eq, ('b', '==', ('m', A_, lo), ('m', B_, lo)))
+                    return e if x[1] == '==' else ('u', '!', e)
+                strict = '<' if x[1] in ('<', '<=') else '>'
+                return ('b', '||', ('b', strict, ('m', A_, hi), ('m', B_, hi)), ('b', '&&', eq, ('b', x[1], ('m', A_, lo), ('m', B_, lo))))
+        return x
+    t2 = map_terms(t, unpack)
+    if packed:
+        elem = (s.params[0].get('sh') or {}).get('elem') or ''
+        if elem in ('unsigned int', 'unsigned short', 'unsigned char', 'uint32_t', 'uint16_t', 'uint8_t'):
+            t = t2          # zero extension is monotone and injective: the key order is the lexicographic order of the components
+        elif elem in ('int', 'short', 'signed char', 'char', 'long', 'long long', 'unsigned long', 'unsigned long long', 'float', 'double'):
+            res.bad(R3, '%s compares packed 64-bit keys (`%s`) built from the components converted to uint32: for element type %s '
+                        'that conversion is not monotone (%s), so the order of the keys is not the lexicographic order of the '
+                        'components given by the scalar `<`' % (what, packed[0][:150], elem,
+                                                                'a negative component wraps to a value >= 2^31 and sorts after every non-negative one'
+                                                                if elem in ('int', 'short', 'signed char', 'char', 'long', 'long long') else
+                                                                'values are truncated to 32 bits / to integers'), 'packed-key-order')
+            return
+        else:
+            res.und(R3, '%s compares packed keys of the components converted to uint32 (`%s`); whether that conversion preserves the '
+                        'order depends on the element type (%s)' % (what, packed[0][:120], elem or 'dependent'))
+            return
     t = strip_casts(expand_vec_cmp(t, s, n))
     g = spec(n)
     bytewise, computed = [], []
@@ -1058,7 +1111,42 @@ def fam_ctor(res, s, v):
         res.und(R5, 'constructor: %s' % why)
         return
     bulk = None
-    for st in v.body():
+
+    def field_of_elem(x):
+        # (&v.x)[k], k < N, is component k of v: the fields are contiguous in x, y, z, w order (R-C04-5 contiguity, layout witness)
+        if x[0] == 'idx' and x[2][0] == 'lit' and x[1][0] == 'u' and x[1][1] == '&' and x[1][2][0] == 'm' and x[1][2][2] == 'x' \
+                and x[2][1].denominator == 1 and 0 <= int(x[2][1]) < n:
+            return ('m', x[1][2][1], COMPS[int(x[2][1])])
+        return x
+
+    def first_field_ptr(x):
+        x = strip_casts(x, pred=lambda ty: True)
+        if x[0] == 'u' and x[1] == '&' and x[2][0] == 'm' and x[2][2] == 'x':
+            return x[2][1]
+        return None
+    # packed 4 x 32 bit conversions: lane-wise value of the intrinsic (default rounding mode)
+    LANE_CONV = {'_mm_cvtepi32_ps': ('float', None),     # int32 -> float, rounds to nearest like the conversion
+                 '_mm_cvttps_epi32': ('int', None),      # float -> int32 with truncation: the conversion of the language
+                 '_mm_cvtps_epi32': ('int', 'rounds to the nearest integer (ties to even, MXCSR rounding mode)')}
+    for st in map_terms(tuple(v.body()), field_of_elem):
+        if st[0] == 'expr' and st[1][0] == 'call' and st[1][1] in ('_mm_storeu_ps', '_mm_storeu_si128', '_mm_store_ps', '_mm_store_si128') \
+                and len(st[1][2]) == 2 and n == 4 and first_field_ptr(st[1][2][0]) == ('this',):
+            val = strip_casts(st[1][2][1], pred=lambda ty: True)
+            if val[0] == 'call' and val[1] in LANE_CONV and len(val[2]) == 1:
+                ld = strip_casts(val[2][0], pred=lambda ty: True)
+                srcv = first_field_ptr(ld[2][0]) if (ld[0] == 'call' and ld[1] in ('_mm_loadu_ps', '_mm_loadu_si128', '_mm_load_ps',
+                                                                                   '_mm_load_si128') and len(ld[2]) == 1) else None
+                if srcv is not None:
+                    ty, wrong = LANE_CONV[val[1]]
+                    if wrong is not None:
+                        res.bad(R5, 'converting constructor: the 4 components are converted with `%s`, which %s; the element conversion '
+                                    'T(o.<k>) of a floating-point value to an integer type truncates toward zero (1.5 -> 1, -2.7 -> -2), '
+                                    'so every component with a fractional part >= .5 differs from the per-component conversion '
+                                    '(_mm_cvttps_epi32 is the truncating form)' % (val[1], wrong), 'conv-rounds')
+                        return
+                    for kk in COMPS[:4]:
+                        got[kk] = ('ctor', ty, (('m', srcv, kk),))
+                    continue
         if st[0] == 'expr' and st[1][0] == 'asg' and st[1][1] == '=' and st[1][2][0] == 'm' and st[1][2][1] == ('this',):
             got[st[1][2][2]] = st[1][3]
         elif st[0] == 'expr' and st[1][0] == 'call' and st[1][1] in ('memcpy', 'memmove', '__builtin_memcpy') and len(st[1][2]) == 3 \
@@ -1642,9 +1730,34 @@ def analyse(ctx, tu, label='', ir=None):
     covered = set()
     callers = []
     pending, typed_ok = [], {}
+    # a classified function that only forwards its parameters to an overload set of vec.h (`return less2(a, b);` with the overload
+    # chosen by enable_if): every member of that set with the same operand kinds has to meet the forwarder's definition itself
+    forward, forwarders, fwd_status, fwd_wait = {}, {}, {}, []
+    for f in vec_h_functions(tu):
+        if not f['dep'] or tu.body(f) is None:
+            continue
+        s = signature(tu, f)
+        fam, fn = classify(tu, f, s)
+        if fam is None or fn is None:
+            continue
+        try:
+            b = FnView(tu, f).body()
+        except Exception:
+            continue
+        if len(b) == 1 and b[0][0] == 'ret' and b[0][1] is not None and b[0][1][0] == 'call' and isinstance(b[0][1][1], str) \
+                and b[0][1][2] == tuple(('p', i) for i in range(len(s.params))) and b[0][1][1] != s.name:
+            nm = b[0][1][1]
+            kinds = [p['k'] for p in s.params]
+            targets = [g for g in vec_h_functions(tu) if g['dep'] and (tu.node(g['id']) or {}).get('name') == nm]
+            if len(targets) > 1 and all(classify(tu, g, signature(tu, g))[0] is None and
+                                        [p['k'] for p in signature(tu, g).params] == kinds for g in targets):
+                forward[nm] = (kinds, fam, fn, s.name if not s.rec else '%s::%s' % (s.rec, s.name))
+                forwarders[f['id']] = nm
     for f in vec_h_functions(tu):
         s = signature(tu, f)
         fam, fn = classify(tu, f, s)
+        if fam is None and s.name in forward and not s.rec and [p['k'] for p in s.params] == forward[s.name][0]:
+            fam, fn = 'overload forwarded to by ' + forward[s.name][3], forward[s.name][2]
         nontemplate = (not f['dep']) and not f.get('pat') and not f.get('rec')
         level = 'pattern' if (f['dep'] or nontemplate) else 'typed'
         pat = pattern_of(tu, f, by_loc) or f
@@ -1667,6 +1780,10 @@ def analyse(ctx, tu, label='', ir=None):
             continue
         (fams if level == 'pattern' else fams_typed)[fam] += 1
         if fn is None:
+            continue
+        if f['id'] in forwarders:
+            n_pat += 1
+            fwd_wait.append((inst, loc, forwarders[f['id']], fam))
             continue
         if level == 'typed' and pat is not f:
             covered.add(pat['id'])
@@ -1708,8 +1825,10 @@ def analyse(ctx, tu, label='', ir=None):
             pass
         if level == 'pattern' and f['dep'] and not decided and not any(it[0] == 'violation' for it in res.items):
             # the template pattern alone is not decided: wait for the verdicts of its typed instantiations
-            pending.append((f['id'], inst, loc, res, ksig, names_called))
+            pending.append((f['id'], inst, loc, res, ksig, names_called, s.name if fam.startswith('overload forwarded') else None))
             continue
+        if fam.startswith('overload forwarded'):
+            fwd_status.setdefault(s.name, []).append(decided)
         callers.append((inst, names_called, decided))
         for status, rule, detail, kd in res.items:
             if status == 'ok':
@@ -1718,8 +1837,10 @@ def analyse(ctx, tu, label='', ir=None):
                 ctx.undecided(rule, inst, detail, loc)
             else:
                 ctx.violation(rule, inst, detail, loc, key='%s|%s|%s|%s' % (rule, VEC_H, ksig, kd))
-    for pid, inst, loc, res, ksig, names_called in pending:
+    for pid, inst, loc, res, ksig, names_called, fwd_name in pending:
         oks = typed_ok.get(pid, [])
+        if fwd_name is not None:
+            fwd_status.setdefault(fwd_name, []).append(bool(oks) and all(oks))
         if oks and all(oks):
             why = '; '.join(it[2] for it in res.items if it[0] == 'undecided')[:160]
             rule = [it[1] for it in res.items if it[0] == 'undecided'][0]
@@ -1737,6 +1858,16 @@ def analyse(ctx, tu, label='', ir=None):
                     ctx.ok(r_, inst, detail, loc)
                 else:
                     ctx.undecided(r_, inst, detail, loc)
+    for inst, loc, nm, fam in fwd_wait:
+        st = fwd_status.get(nm, [])
+        rule = R3
+        if st and all(st):
+            ctx.ok(rule, inst, 'forwards its operands unchanged to the overload set `%s`; each of its %d overloads / instantiations '
+                               'meets the definition of %s itself' % (nm, len(st), fam), loc)
+            callers.append((inst, {nm}, True))
+        else:
+            ctx.undecided(rule, inst, 'forwards its operands to the overload set `%s`, whose members are not all decided' % nm, loc)
+            callers.append((inst, {nm}, False))
     # functions the classifier does not know: helpers take the verdict of the classified functions that call them
     still = []
     for inst, loc, name, f in unclassified:
